@@ -50,6 +50,9 @@ def check(case):
             classes.append("param-only-constraint:" + case["param_con"])
         try:
             sol = P.solve(method=method)
+            if case.get("resolve"):
+                sol = P.solve(method=method)  # the same problem solved again, nothing edited: judged on the second result
+                classes.append("re-solved")
         except Exception as ex:
             classes.append("refused:" + exc_label(ex))
             return Result.discard("method-refuses-model:" + exc_label(ex), classes)
